@@ -551,6 +551,14 @@ func (p *Parser) evaluateValues(ctx context) (evaluatedValues, error) {
 	}, nil
 }
 
+// checkHasValue makes sure the expression results in a value (a call of a function without return values doesn't).
+func (p *Parser) checkHasValue(expr Expression, token lexer.Token) error {
+	if expr.ValueType().DataType() == DATA_TYPE_UNKNOWN {
+		return p.expectedError("expression with a value", token)
+	}
+	return nil
+}
+
 func (p *Parser) evaluateBuiltInFunction(tokenType lexer.TokenType, keyword string, minArgs int, maxArg int, ctx context, stmtCallout func(keywordToken lexer.Token, expressions []Expression) (Statement, error)) (Statement, error) {
 	keywordToken := p.eat()
 
@@ -569,7 +577,13 @@ func (p *Parser) evaluateBuiltInFunction(tokenType lexer.TokenType, keyword stri
 	// Evaluate arguments if it's a print call with arguments.
 	if nextToken.Type() != lexer.CLOSING_ROUND_BRACKET {
 		for {
+			exprToken := p.peek()
 			expr, err := p.evaluateExpression(ctx)
+
+			if err != nil {
+				return nil, err
+			}
+			err = p.checkHasValue(expr, exprToken)
 
 			if err != nil {
 				return nil, err
@@ -2370,6 +2384,11 @@ func (p *Parser) evaluateArguments(typeName string, name string, params []Variab
 		var expr Expression
 		argToken := nextToken
 		expr, err = p.evaluateExpression(ctx)
+
+		if err != nil {
+			return nil, err
+		}
+		err = p.checkHasValue(expr, argToken)
 
 		if err != nil {
 			return nil, err
